@@ -456,6 +456,28 @@ def run_lifecycle(shard, res, h, valid, only):
                 finally:
                     builtins.id = real_id
                 res['cov']['lifecycle_identity_scenarios'] = res['cov'].get('lifecycle_identity_scenarios', 0) + 1
+            # the other order: the default-configured application exists first, a permissively configured sibling (of each
+            # XML protocol class) is constructed afterwards and never used
+            for sib in ('xml', 'soap11', 'soap12'):
+                app = spec.make_app(b, harness.make_proto(proto, None), harness.make_proto(proto))
+                srv = drv.make_server(app)
+                sibling = harness.make_proto(sib, None, resolve_entities=True, load_dtd=True, huge_tree=True)
+                keep.append((app, srv, sibling))
+                for kind, data in sorted(by_kind.items()):
+                    mon.reset()
+                    b.rec.reset()
+                    b.rec.script['m'] = ('ret', 'fine')
+                    o = drv.call_server(srv, data, charset='utf-8')
+                    res['evaluations'] += 1
+                    hay = ' '.join(_strings([c[1] for c in b.rec.calls])) + ' ' + (o.out or b'').decode('utf8', 'replace')
+                    nfile = mon.ino.drain()
+                    if mon.token in hay or nfile:
+                        res['violations'].append({'sig': 'C17|lifecycle-sibling|%s|%s|%s' % (proto, kind, sib),
+                                                  'what': '[%s] a default-configured application expanded the %s after a permissively configured %s protocol object was '
+                                                          'constructed (and never used) (canary file opened %d times; token in arguments/response: %s)' % (proto, kind, sib, nfile, mon.token in hay),
+                                                  'case': {'shard': shard, 'only': key}, 'count': 1})
+                    else:
+                        res['nontrivial'] += 1
             res['cov']['lifecycle_identity_reuse_candidates'] = res['cov'].get('lifecycle_identity_reuse_candidates', 0) + candidates
             res['outcomes']['lifecycle'] = res['outcomes'].get('lifecycle', 0) + 1
             res['cov']['lifecycle_histories'] = res['cov'].get('lifecycle_histories', 0) + 1
